@@ -34,7 +34,7 @@ RULE = ("gen(seed): knobs max_header_size in 64..4096, max_body_size in 0..4096 
         "(then max_buffer_size or the 100 MB default applies), decompress_request, chunk_size "
         "1..65536, optional max_buffer_size >= 2*max_header_size; 1-3 well-formed pipelined "
         "requests whose header block is padded to limit-1/limit/limit+1/far above and whose "
-        "body (Content-Length, chunked with one/many/1-byte/crossing-last chunks, gzip with "
+        "body (Content-Length - also spelled as a list or repeated field line -, chunked with one/many/1-byte/crossing-last chunks, gzip with "
         "decompressed size at limit-1/limit/limit+1/bomb) is placed around the effective limit "
         "(global or per-request set_max_body_size override); one delivery under whole / "
         "structural / 1-byte-window / random segmentation with recv_cap tapes. "
@@ -103,8 +103,17 @@ def _build_request(spec, idx, marks, base):
     if spec.get("gzip"):
         lines.append(b"Content-Encoding: gzip")
     if framing == "cl":
-        lines.append(b"Content-Length: %d" % (len(wire) if spec.get("cl_claim") is None
-                                              else max(0, int(spec["cl_claim"]))))
+        v = b"%d" % (len(wire) if spec.get("cl_claim") is None else max(0, int(spec["cl_claim"])))
+        form = spec.get("cl_form")
+        if form == "list":
+            lines.append(b"Content-Length: " + v + b"," + v)
+        elif form == "list_sp":
+            lines.append(b"Content-Length: " + v + b", " + v + b",\t" + v)
+        elif form == "dup":
+            lines.append(b"Content-Length: " + v)
+            lines.append(b"content-length: " + v)
+        else:
+            lines.append(b"Content-Length: " + v)
     elif framing == "chunked":
         lines.append(b"Transfer-Encoding: chunked")
     if spec.get("close"):
@@ -224,6 +233,9 @@ def gen(rng, tier, index):
         if framing == "none":
             n = 0
         spec["framing"] = framing
+        if framing == "cl" and rng.random() < 0.3:
+            # the same length spelled as a list / repeated field line (RFC 9110 8.6)
+            spec["cl_form"] = rng.choice(["list", "list_sp", "dup"])
         spec["gzip"] = gz
         spec["raw_len"] = n
         if framing == "chunked":
@@ -408,6 +420,11 @@ def run(scn, full_log=False):
                 limit_of_headers(ref.partial.header_map()) is not None:
             gz_override = True
     probe("ref_end:" + ref.end)
+    if any("cl_list" in m.features for m in msgs):
+        probe("content_length_as_list")
+        if ref.end == "reject" and ref.reason == "body_too_large" and ref.partial is not None \
+                and "cl_list" in ref.partial.features:
+            probe("content_length_as_list_over_limit")
     for spec in scn.get("reqs") or []:
         if not isinstance(spec, dict):
             continue
@@ -435,13 +452,10 @@ def run(scn, full_log=False):
         k = key or rule
         if gz_override and rule in ("reject.delivered", "limit.handed_more_than_max",
                                     "tail.body_not_a_prefix", "valid.not_delivered"):
-            # one root cause, one rule: the decompressed-size limit of a request whose
-            # application called set_max_body_size is still the connection-wide one
-            side = "refused_within_override" if rule == "valid.not_delivered" \
-                else "handed_more_than_override"
-            msg = "[%s] %s" % (k, msg)
-            rule = "gzip_override.limit_ignored"
-            k = rule + "/" + side
+            # discriminator only: a gzip body on a request whose application called
+            # set_max_body_size (defect fixed in f1b8bce was reported as
+            # gzip_override.limit_ignored/*; rule names are now left as they are)
+            k += "/gzip+override"
         if (rule, k) in seen:
             return
         seen.add((rule, k))
